@@ -21,6 +21,7 @@
 import MitmVerif.Lemmas.C48Body
 import MitmVerif.Lemmas.C48Raw
 import MitmVerif.Lemmas.C48Argv
+import MitmVerif.Lemmas.C48Chunk
 namespace MitmVerif.Props.C48
 open MitmVerif MitmVerif.C48 MitmVerif.C48.Sh MitmVerif.Lemmas.C48
 
@@ -268,5 +269,144 @@ example : run true [99, 117, 114, 108, 59, 105, 100] = none := by decide       -
 example : quote [36, 40, 105, 100, 41] = [39, 36, 40, 105, 100, 41, 39] := by decide
 example : BodyExact false [53, 48, 37] := body_exact_partial _ _ (Or.inl (by decide))
 example : WireSafe ⟨[71, 69, 84], [47], [72, 84, 84, 80, 47, 49, 46, 49], [([104], [118])], [98]⟩ := by decide
+
+
+/-! ## round 3: every emitted construct, every shell, in one statement; what `pop_headers` removes -/
+
+/-- httpie, text body with control characters, under a printf without `\x` (dash would also need `<<<`; ksh/zsh have
+    both): the here-string carries the `\xHH`-spelled text -/
+theorem httpie_body_ctl_nohex (r : Req) (t : Bytes) (hb : r.body = .text t) (hc : hasCtl t = true) :
+    ∃ cmd, httpieCommand r = some cmd ∧
+      run false cmd = some ⟨httpieArgs r, some (stripNl (t.flatMap dashByte) ++ [10])⟩ := by
+  refine ⟨joinSp ((httpieArgs r).map quote) ++ [32, 60, 60, 60, 32] ++ contentForConsole t,
+    by simp [httpieCommand, hb], ?_⟩
+  rw [cfc_ctl t hc]
+  exact run_here_s false _ _ _ (printf_escText_nohex t) (escText_head t)
+
+/-- **every curl command line the exporter can emit is one simple command** — for every request, body kind, option
+    setting and both printf flavours: the reading succeeds (no construct is left uninterpreted: nothing but the emitted
+    quoting reaches the shell), there is no redirection, the argv starts with the `curlArgs` of the request (so with `curl`)
+    and continues with nothing or with exactly `-d VALUE`. -/
+theorem curl_command_single_command (hex p : Bool) (addr : Option Bytes) (r : Req) (cmd : Bytes)
+    (h : curlCommand p addr r = some cmd) :
+    ∃ tail, run hex cmd = some ⟨curlArgs p addr r ++ tail, none⟩ ∧ (tail = [] ∨ ∃ v, tail = [[45, 100], v]) := by
+  cases hb : r.body with
+  | none =>
+    obtain ⟨c, h1, h2⟩ := curl_no_body hex p addr r hb
+    rw [h] at h1; cases h1
+    exact ⟨[], by simpa using h2, Or.inl rfl⟩
+  | binary => simp [curlCommand, hb] at h
+  | text t =>
+    by_cases hc : hasCtl t = true
+    · cases hex with
+      | true =>
+        obtain ⟨c, h1, h2⟩ := curl_body_ctl_bash p addr r t hb hc
+        rw [h] at h1; cases h1
+        exact ⟨_, h2, Or.inr ⟨_, rfl⟩⟩
+      | false =>
+        obtain ⟨c, h1, h2⟩ := curl_body_ctl_dash p addr r t hb hc
+        rw [h] at h1; cases h1
+        exact ⟨_, h2, Or.inr ⟨_, rfl⟩⟩
+    · obtain ⟨c, h1, h2⟩ := curl_body_plain hex p addr r t hb (by simpa using hc)
+      rw [h] at h1; cases h1
+      exact ⟨_, h2, Or.inr ⟨_, rfl⟩⟩
+
+/-- … and likewise every httpie command line: argv is exactly `httpieArgs`, the body (if any) arrives on stdin -/
+theorem httpie_command_single_command (hex : Bool) (r : Req) (cmd : Bytes) (h : httpieCommand r = some cmd) :
+    ∃ stdin, run hex cmd = some ⟨httpieArgs r, stdin⟩ := by
+  cases hb : r.body with
+  | none =>
+    obtain ⟨c, h1, h2⟩ := httpie_no_body hex r hb
+    rw [h] at h1; cases h1
+    exact ⟨_, h2⟩
+  | binary => simp [httpieCommand, hb] at h
+  | text t =>
+    by_cases hc : hasCtl t = true
+    · cases hex with
+      | true =>
+        obtain ⟨c, h1, h2⟩ := httpie_body_ctl_bash r t hb hc
+        rw [h] at h1; cases h1
+        exact ⟨_, h2⟩
+      | false =>
+        obtain ⟨c, h1, h2⟩ := httpie_body_ctl_nohex r t hb hc
+        rw [h] at h1; cases h1
+        exact ⟨_, h2⟩
+    · obtain ⟨c, h1, h2⟩ := httpie_body_plain hex r t hb (by simpa using hc)
+      rw [h] at h1; cases h1
+      exact ⟨_, h2⟩
+
+/-- the export is refused exactly for bodies that are not valid text -/
+theorem curl_refused_iff_binary (p : Bool) (addr : Option Bytes) (r : Req) :
+    curlCommand p addr r = none ↔ r.body = .binary := by
+  cases hb : r.body <;> simp [curlCommand, hb]
+
+private def sCL : Bytes := [99, 111, 110, 116, 101, 110, 116, 45, 108, 101, 110, 103, 116, 104]
+private def sHost : Bytes := [104, 111, 115, 116]
+private def sAuth : Bytes := [58, 97, 117, 116, 104, 111, 114, 105, 116, 121]
+
+private theorem popHeaders_cases (host : Bytes) (hs : List (Bytes × Bytes)) :
+    popHeaders host hs = dropName (dropName (dropName hs sCL) sHost) sAuth ∨
+    popHeaders host hs = dropName (dropName hs sCL) sHost ∨
+    popHeaders host hs = dropName (dropName hs sCL) sAuth ∨
+    popHeaders host hs = dropName hs sCL := by
+  unfold popHeaders
+  by_cases c1 : (getJoined (dropName hs sCL) sHost).getD [] = host
+  · by_cases c2 : (getJoined (dropName (dropName hs sCL) sHost) sAuth).getD [] = host
+    · left; simp [sCL, sHost, sAuth] at c1 c2 ⊢; simp [c1, c2]
+    · right; left; simp [sCL, sHost, sAuth] at c1 c2 ⊢; simp [c1, c2]
+  · by_cases c2 : (getJoined (dropName hs sCL) sAuth).getD [] = host
+    · right; right; left; simp [sCL, sHost, sAuth] at c1 c2 ⊢; simp [c1, c2]
+    · right; right; right; simp [sCL, sHost, sAuth] at c1 c2 ⊢; simp [c1, c2]
+
+private theorem dropName_sublist (hs : List (Bytes × Bytes)) (n : Bytes) : (dropName hs n).Sublist hs := List.filter_sublist
+
+private theorem mem_dropName (hs : List (Bytes × Bytes)) (n : Bytes) (h : Bytes × Bytes) (hm : h ∈ hs) (hn : lname h.1 ≠ n) :
+    h ∈ dropName hs n := by simp [dropName, List.mem_filter, hm, hn]
+
+/-- `pop_headers` only removes: the header set it leaves is a sub-list of the request's, in order -/
+theorem popHeaders_sublist (host : Bytes) (hs : List (Bytes × Bytes)) : (popHeaders host hs).Sublist hs := by
+  rcases popHeaders_cases host hs with h | h | h | h <;> rw [h]
+  · exact ((dropName_sublist _ _).trans (dropName_sublist _ _)).trans (dropName_sublist _ _)
+  · exact (dropName_sublist _ _).trans (dropName_sublist _ _)
+  · exact (dropName_sublist _ _).trans (dropName_sublist _ _)
+  · exact dropName_sublist _ _
+
+/-- … and it removes nothing but Content-Length, Host and :authority lines: every other field line survives -/
+theorem popHeaders_keeps_others (host : Bytes) (hs : List (Bytes × Bytes)) (h : Bytes × Bytes) (hm : h ∈ hs)
+    (h1 : lname h.1 ≠ [99, 111, 110, 116, 101, 110, 116, 45, 108, 101, 110, 103, 116, 104])
+    (h2 : lname h.1 ≠ [104, 111, 115, 116]) (h3 : lname h.1 ≠ [58, 97, 117, 116, 104, 111, 114, 105, 116, 121]) :
+    h ∈ popHeaders host hs := by
+  have a := mem_dropName hs sCL h hm h1
+  rcases popHeaders_cases host hs with e | e | e | e <;> rw [e]
+  · exact mem_dropName _ _ h (mem_dropName _ _ h a h2) h3
+  · exact mem_dropName _ _ h a h2
+  · exact mem_dropName _ _ h a h3
+  · exact a
+
+example : popHeaders [104] [([72, 111, 115, 116], [104]), ([88], [49]), ([67, 111, 110, 116, 101, 110, 116, 45, 76, 101, 110, 103, 116, 104], [53])]
+    = [([88], [49])] := by decide
+example : popHeaders [104] [([72, 111, 115, 116], [122])] = [([72, 111, 115, 116], [122])] := by decide
+
+
+/-- under `Transfer-Encoding: chunked`, `assemble_request` writes the head followed by the chunk-framed content -/
+theorem assemble_chunked (r : RawReq) (h : isChunked r.fields = true) :
+    assembleRequest r = some (rawRequest { r with body := chunkedBody r.body }) := by
+  simp [assembleRequest, h, rawRequest, chunkedBody, List.append_assoc]
+
+/-- **the raw export parses back on the chunked path too**: for a representable request whose headers announce chunked
+    transfer coding, reading the head and un-chunking the body recovers exactly the request, for every content. -/
+theorem raw_chunked_parses_back (r : RawReq) (hs : WireSafe r) (h : isChunked r.fields = true) :
+    ∃ raw, assembleRequest r = some raw ∧ parseRawChunked raw = some r := by
+  refine ⟨_, assemble_chunked r h, ?_⟩
+  have hs' : WireSafe { r with body := chunkedBody r.body } := by simpa [WireSafe, wireSafe] using hs
+  unfold parseRawChunked
+  rw [parseRaw_rawRequest _ hs']
+  simp only
+  rw [parseChunked_chunkedBody r.body _ (by simp [chunkedBody])]
+  rfl
+
+example : parseChunked 9 (chunkedBody [97, 98, 99]) = some [97, 98, 99] := by decide
+example : chunkedBody [] = [48, 13, 10, 13, 10] := by decide
+example : hexNat 255 = [102, 102] ∧ hexNat 0 = [48] ∧ hexNat 4096 = [49, 48, 48, 48] := by decide
 
 end MitmVerif.Props.C48
